@@ -148,6 +148,41 @@ Proof.
   rewrite (index_of_nth keys 0 _ k Hnd En). cbn [Nat.add].
   rewrite N.mod_small by lia. lia.
 Qed.
+(* keys of ANY magnitude, repeated or not: a key of the list maps to an index (its first
+   occurrence) that holds this very key — never to 0, never to another key *)
+Lemma index_of_Some keys : forall i0 k j,
+  index_of k keys i0 = Some j -> exists j', j = (i0 + j')%nat /\ nth_error keys j' = Some k.
+Proof.
+  induction keys as [|x keys IH]; intros i0 k j H; [discriminate|]. cbn [index_of] in H.
+  destruct (Z.eqb_spec x k) as [E|E].
+  - inversion H; subst. exists 0%nat. split; [lia | reflexivity].
+  - destruct (IH _ _ _ H) as [j' [-> Hn]]. exists (S j'). split; [lia | exact Hn].
+Qed.
+Lemma index_of_In keys : forall i0 k, In k keys -> exists j, index_of k keys i0 = Some j.
+Proof.
+  induction keys as [|x keys IH]; intros i0 k H; [destruct H|]. cbn [index_of].
+  destruct (Z.eqb_spec x k) as [E|E]; [eexists; reflexivity|].
+  destruct H as [H|H]; [contradiction|]. apply IH, H.
+Qed.
+Lemma converter_key_of_index keys k :
+  (length keys < 256)%nat -> In k keys ->
+  1 <= sc_index keys k <= N.of_nat (length keys) /\ sc_key keys (sc_index keys k) = Some k.
+Proof.
+  intros Hl Hin. unfold sc_index. destruct (index_of_In keys 0 k Hin) as [j Ej]. rewrite Ej.
+  destruct (index_of_Some keys 0 k j Ej) as [j' [-> Hn]]. cbn [Nat.add].
+  assert (Hj : (j' < length keys)%nat) by (apply nth_error_Some; congruence).
+  rewrite N.mod_small by lia. split; [lia|].
+  unfold sc_key. rewrite mod_index by lia.
+  replace (N.to_nat (N.of_nat j' + 1 - 1)) with j' by lia. exact Hn.
+Qed.
+Lemma optZ_eqb_eq a b : optZ_eqb a b = true -> a = b.
+Proof.
+  destruct a as [x|], b as [y|]; cbn; try discriminate; try reflexivity.
+  intros H. apply Z.eqb_eq in H. congruence.
+Qed.
+Lemma optZ_eqb_refl a : optZ_eqb a a = true.
+Proof. destruct a as [x|]; cbn; [apply Z.eqb_refl | reflexivity]. Qed.
+
 Lemma converter_foreign keys k : ~ In k keys -> sc_index keys k = 0.
 Proof. intros H. unfold sc_index. rewrite index_of_None by exact H. reflexivity. Qed.
 Lemma converter_panics_only_outside keys i :
@@ -476,12 +511,18 @@ Lemma spec_fsg_sound c : spec_fsg c = true -> f_valid c = true ->
          /\ sc_key keys fi = Some (party_key (f_seed c) m)
          /\ sc_index keys (party_key (f_seed c) m) = fi
          /\ nth_error ops (N.to_nat (fi - 1)) = Some o
-         /\ nth_error (f_selected c) (N.to_nat (m - 1)) = Some o.
+         /\ nth_error (f_selected c) (N.to_nat (m - 1)) = Some o
+         /\ In (m, fi) (combine (f_operating c) (f_conv c)).
 Proof.
   intros H V keys. unfold spec_fsg in H. rewrite V in H. cbn [negb orb] in H.
   destruct (f_out c) as [| |ops idx]; try discriminate. exists ops, idx. split; [reflexivity|].
-  rewrite !andb_true_iff in H. destruct H as [[[_ _] Hn] Hf]. split; [apply nodupb_NoDup, Hn|].
-  rewrite forallb_forall in Hf. intros m Hm. specialize (Hf m Hm).
+  rewrite !andb_true_iff in H. destruct H as [[[[_ _] Hn] Hf] Hc]. split; [apply nodupb_NoDup, Hn|].
+  apply listN_eqb_eq in Hc.
+  rewrite forallb_forall in Hf. intros m Hm. pose proof (Hf m Hm) as Hf'. clear Hf. rename Hf' into Hf.
+  assert (Hcomb : In (m, match map_get m idx with Some fi => fi | None => 0 end)
+                     (combine (f_operating c) (f_conv c))).
+  { rewrite Hc. clear -Hm. induction (f_operating c) as [|x l IH]; [destruct Hm|].
+    cbn [map combine]. destruct Hm as [->|Hm]; [left; reflexivity | right; apply IH, Hm]. }
   destruct (map_get m idx) as [fi|]; [|discriminate]. fold keys in Hf.
   rewrite !andb_true_iff in Hf. destruct Hf as [[[[R1 R2] K1] K2] O].
   destruct (sc_key keys fi) as [k|] eqn:Ek; [|discriminate].
@@ -495,11 +536,12 @@ Lemma model_spec_fsg c : f_valid c = true -> agree_fsg c = true -> spec_fsg c = 
 Proof.
   intros V A. destruct (f_valid_spec c V) as [W _].
   destruct (final_group_main (f_seed c) _ _ _ _ W) as (ops & idx & E & Lo & _ & Snd & M & _).
-  unfold agree_fsg in A. apply fsg_eqb_eq in A. rewrite E in A.
+  unfold agree_fsg in A. apply andb_true_iff in A. destruct A as [A Ac].
+  apply fsg_eqb_eq in A. rewrite E in A. apply listN_eqb_eq in Ac.
   unfold spec_fsg. rewrite V, A. cbn [negb orb]. rewrite !andb_true_iff.
   assert (Li : length idx = length (f_operating c)).
   { rewrite <- (map_length snd idx), Snd, map_length, seq_length. reflexivity. }
-  split; [split; [split|]|].
+  split; [split; [split; [split|]|]|].
   - apply Nat.eqb_eq. exact Lo.
   - apply Nat.eqb_eq. exact Li.
   - apply nodupb_NoDup. rewrite Snd. apply SSorted_NoDup, range_sorted.
@@ -507,6 +549,11 @@ Proof.
     rewrite G, K1, K2, Z.eqb_refl, N.eqb_refl, O.
     destruct (nth_error (f_selected c) (N.to_nat (m - 1))) as [b|]; [|contradiction].
     rewrite N.eqb_refl. rewrite !andb_true_r. apply andb_true_iff. split; apply N.leb_le; lia.
+  - rewrite Ac. replace (map _ (f_operating c)) with
+      (map (fun m => match map_get m idx with Some fi => fi | None => 0 end) (f_operating c)).
+    { clear. induction (map _ (f_operating c)) as [|x l IH]; cbn [list_eqb]; [reflexivity|].
+      rewrite N.eqb_refl. exact IH. }
+    apply map_ext_in. intros m Hm. destruct (M m Hm) as (fi & G & _ & _ & K2 & _). rewrite G, K2. reflexivity.
 Qed.
 
 Definition sg_done (o : sign_obs) : bool := match sg_status o with Done => true | _ => false end.
@@ -567,11 +614,20 @@ Qed.
 Lemma spec_conv_sound c : spec_conv c = true ->
   NoDup (v_keys c) -> (length (v_keys c) < 256)%nat ->
   length (v_idx c) = length (v_idx_out c)
-  /\ forall i out, In (i, out) (combine (v_idx c) (v_idx_out c)) ->
-       1 <= i <= N.of_nat (length (v_keys c)) -> exists k, out = Some k /\ sc_index (v_keys c) k = i.
+  /\ (forall i out, In (i, out) (combine (v_idx c) (v_idx_out c)) ->
+       1 <= i <= N.of_nat (length (v_keys c)) -> exists k, out = Some k /\ sc_index (v_keys c) k = i)
+  /\ length (v_key c) = length (v_key_out c)
+  /\ (forall k out, In (k, out) (combine (v_key c) (v_key_out c)) -> In k (v_keys c) ->
+       sc_key (v_keys c) out = Some k).
 Proof.
-  unfold spec_conv. rewrite andb_true_iff. intros [H1 H2] Hnd Hl.
-  split; [apply Nat.eqb_eq, H1|].
+  unfold spec_conv. rewrite !andb_true_iff. intros [[[H1 H2] H3] H4] Hnd Hl.
+  split; [apply Nat.eqb_eq, H1|]. split; [|split; [apply Nat.eqb_eq, H3|]].
+  2:{ apply orb_true_iff in H4. destruct H4 as [H4|H4].
+      - apply negb_true_iff, N.ltb_ge in H4. lia.
+      - rewrite forallb_forall in H4. intros k out Hin Hk. specialize (H4 (k, out) Hin). cbn [fst snd] in H4.
+        apply orb_true_iff in H4. destruct H4 as [H4|H4].
+        + apply negb_true_iff in H4. apply memZ_In in Hk. congruence.
+        + apply optZ_eqb_eq. exact H4. }
   apply orb_true_iff in H2. destruct H2 as [H2|H2].
   - apply negb_true_iff, andb_false_iff in H2. destruct H2 as [H2|H2].
     + apply nodupZb_NoDup in Hnd. congruence.
@@ -584,18 +640,25 @@ Qed.
 
 Lemma model_spec_conv c : agree_conv c = true -> spec_conv c = true.
 Proof.
-  unfold agree_conv. rewrite !andb_true_iff. intros [[A _] _].
+  unfold agree_conv. rewrite !andb_true_iff. intros [[A B] _].
   assert (E : v_idx_out c = map (sc_key (v_keys c)) (v_idx c)).
   { apply (list_eqb_eq optZ_eqb); [|exact A]. intros [x|] [y|]; cbn; try discriminate; try reflexivity.
     intros H. apply Z.eqb_eq in H. congruence. }
-  unfold spec_conv. rewrite E, map_length, Nat.eqb_refl. cbn [andb].
-  destruct (nodupZb (v_keys c) && (N.of_nat (length (v_keys c)) <? 256)) eqn:V; [|reflexivity].
-  cbn [negb orb]. apply andb_true_iff in V. destruct V as [V1 V2]. apply nodupZb_NoDup in V1. apply N.ltb_lt in V2.
-  apply forallb_forall. intros [i o] Hin. apply In_combine_map in Hin. cbn [fst snd]. subst o.
-  destruct ((1 <=? i) && (i <=? N.of_nat (length (v_keys c)))) eqn:R; [|reflexivity]. cbn [negb orb].
-  apply andb_true_iff in R. destruct R as [R1 R2]. apply N.leb_le in R1, R2.
-  destruct (converter_roundtrip (v_keys c) i V1 ltac:(lia) ltac:(lia)) as [k [K1 K2]].
-  rewrite K1. apply N.eqb_eq. exact K2.
+  apply listN_eqb_eq in B.
+  unfold spec_conv. rewrite E, B, !map_length, !Nat.eqb_refl. cbn [andb]. rewrite andb_true_r.
+  apply andb_true_iff. split.
+  - destruct (nodupZb (v_keys c) && (N.of_nat (length (v_keys c)) <? 256)) eqn:V; [|reflexivity].
+    cbn [negb orb]. apply andb_true_iff in V. destruct V as [V1 V2]. apply nodupZb_NoDup in V1. apply N.ltb_lt in V2.
+    apply forallb_forall. intros [i o] Hin. apply In_combine_map in Hin. cbn [fst snd]. subst o.
+    destruct ((1 <=? i) && (i <=? N.of_nat (length (v_keys c)))) eqn:R; [|reflexivity]. cbn [negb orb].
+    apply andb_true_iff in R. destruct R as [R1 R2]. apply N.leb_le in R1, R2.
+    destruct (converter_roundtrip (v_keys c) i V1 ltac:(lia) ltac:(lia)) as [k [K1 K2]].
+    rewrite K1. apply N.eqb_eq. exact K2.
+  - destruct (N.of_nat (length (v_keys c)) <? 256) eqn:V2; [|reflexivity]. cbn [negb orb].
+    apply N.ltb_lt in V2.
+    apply forallb_forall. intros [k o] Hin. apply In_combine_map in Hin. cbn [fst snd]. subst o.
+    destruct (memZ k (v_keys c)) eqn:M; [|reflexivity]. cbn [negb orb]. apply memZ_In in M.
+    destruct (converter_key_of_index (v_keys c) k ltac:(lia) M) as [_ K]. rewrite K. apply optZ_eqb_refl.
 Qed.
 
 (* signing probe: what was stored comes from legitimate deliveries; no panic for a wallet whose
@@ -606,9 +669,17 @@ Lemma spec_sprobe_sound c : spec_sprobe c = true ->
        /\ m_sender m <> sp_self c /\ 1 <= m_sender m <= sp_size c /\ ~ In (m_sender m) (sp_dq c)
        /\ nth_error (sp_ops c) (N.to_nat (m_sender m - 1)) = Some (m_op m)
        /\ m_session m = sp_session c)
-  /\ (sp_size c <= N.of_nat (length (sp_keys c)) -> so_keys c <> None).
+  /\ (sp_size c <= N.of_nat (length (sp_keys c)) -> so_keys c <> None)
+  /\ ((length (sp_keys c) < 256)%nat -> forall l, so_keys c = Some l ->
+        length l = length (so_index c)
+        /\ forall k i, In (k, i) (combine l (so_index c)) -> sc_key (sp_keys c) i = Some k).
 Proof.
-  unfold spec_sprobe. rewrite !andb_true_iff. intros [[_ H] P]. split.
+  unfold spec_sprobe. rewrite !andb_true_iff. intros [[[_ H] P] Q]. split; [|split].
+  3:{ intros Hl l El. rewrite El in Q. apply orb_true_iff in Q. destruct Q as [Q|Q].
+      - apply negb_true_iff, N.ltb_ge in Q. lia.
+      - apply andb_true_iff in Q. destruct Q as [Q1 Q2]. split; [apply Nat.eqb_eq, Q1|].
+        rewrite forallb_forall in Q2. intros k i Hin. specialize (Q2 (k, i) Hin). cbn [fst snd] in Q2.
+        apply optZ_eqb_eq. exact Q2. }
   - intros k Hk x Hx. rewrite forallb_forall in H.
     assert (Ik : In k s_kinds) by (cbn; lia). specialize (H k Ik).
     rewrite !andb_true_iff in H. destruct H as [[[H1 _] _] _].
@@ -644,3 +715,18 @@ Proof.
   - repeat constructor; cbn; lia.
   - intros m Hm. cbn in Hm. lia.
 Qed.
+
+(* keys of mixed magnitude: key generation of a 12-seat group with members 1..7 excluded and seed
+   0 leaves the party keys 8, 9, 10, 11, 12 (one and two decimal digits; their decimal forms sort
+   as 10, 11, 12, 8, 9).  The final members 1..5 map to them and back; likewise across 2^64 *)
+Example example_mixed_magnitude_keys :
+  let sel := [21; 22; 23; 24; 25; 26; 27; 28; 29; 30; 31; 32] in
+  final_signing_group sel [8; 9; 10; 11; 12] 12 5
+    = FOk [28; 29; 30; 31; 32] [(8, 1); (9, 2); (10, 3); (11, 4); (12, 5)]
+  /\ wallet_keys 0 [12; 8; 10; 9; 11] = [8; 9; 10; 11; 12]%Z
+  /\ map (sc_index [8; 9; 10; 11; 12]%Z) [8; 9; 10; 11; 12; 7; 13]%Z = [1; 2; 3; 4; 5; 0; 0]
+  /\ map (sc_key [8; 9; 10; 11; 12]%Z) [1; 2; 3; 4; 5] = map Some [8; 9; 10; 11; 12]%Z
+  /\ map (sc_index (wallet_keys 18446744073709551613 [1; 2; 3; 4]))
+         [18446744073709551614; 18446744073709551615; 18446744073709551616; 18446744073709551617]%Z
+     = [1; 2; 3; 4].
+Proof. cbv zeta. repeat split; vm_compute; reflexivity. Qed.
